@@ -283,12 +283,18 @@ class Run:
               "coverage": cov, "assumptions": self.assumptions, "wall_s": wall,
               "violations": len(self.violations)}
         evdir = os.path.join(VERIF, "evidence") if REPO == "/repo" else self.out   # trial runs on a scratch tree leave no evidence
+        ext = self.pid.startswith("X")      # extension family (DESIGN.md 9.7): not one of the listed properties
+        if ext and REPO == "/repo":
+            evdir = os.path.join(VERIF, "evidence_ext")
         os.makedirs(evdir, exist_ok=True)
         with open(os.path.join(evdir, self.pid + ".json"), "w") as f:
             json.dump(ev, f, indent=1, sort_keys=True)
             f.write("\n")
         for path, summ in self.violations[:20]:
-            log("VIOLATION property=%s replay=%s  # %s" % (self.pid, path, summ))
+            if ext:
+                log("DEVIATION extension=%s replay=%s  # %s" % (self.pid, path, summ))
+            else:
+                log("VIOLATION property=%s replay=%s  # %s" % (self.pid, path, summ))
         if len(self.violations) > 20:
             log("... %d more violations" % (len(self.violations) - 20))
         log("%s %s seed=%d: %d TLC states, %d recordings validated (%d events), %d violations, %.1fs" %
